@@ -94,13 +94,16 @@ def BState.init : BState :=
   { pendingRemote := [], pendingRegistry := [], analyzed := [], pkgDirs := [], pkgMeta := [],
     resolved := [], deprec := [], regVersions := [], poisoned := false, log := [] }
 
-/-- newest (greatest rank) offered version that is allowed; `none` = `versions.Unspecified` -/
+/-- newest (greatest rank) offered version that is allowed; `none` = `versions.Unspecified`.
+Among allowed versions of equal rank (same precedence, different build metadata) the LAST listed
+one is selected: go-versions' `List.NewestInSet` scans the stably sorted listing from the end and
+replaces its candidate only by a strictly greater one (`C17_last_of_equal_rank`). -/
 def selectVersion (offered : List VerInfo) (allowed : List VerS) : Option VerInfo :=
   offered.foldl (fun best v =>
     if allowed.contains v.ver then
       match best with
       | none => some v
-      | some b => if b.rank < v.rank then some v else some b
+      | some b => if b.rank ≤ v.rank then some v else some b
     else best) none
 
 /-- `findRegistryPackageSource` -/
@@ -130,8 +133,8 @@ def findRegistrySource (w : World) (st : BState) (src : RegSrc) (allowed : List 
         | none =>
           match assoc w.sources key with
           | some (some real) =>
-            -- the deprecation recorded is that of the first offered entry with the same version
-            let dep := match vs.find? (fun v => v.rank = sel.rank) with
+            -- the deprecation recorded is that of the first offered entry with exactly the selected version
+            let dep := match vs.find? (fun v => v.ver = sel.ver) with
               | some v => v.deprecation
               | none => none
             ({ st1 with resolved := (key, real) :: st1.resolved, deprec := (key, dep) :: st1.deprec,
